@@ -90,18 +90,21 @@ def run_case(ctx, case):
     from ..props.c04 import html_subtree
     data = case["input"]
     frag = case["frag"]
+    nsflag = bool(case.get("ns", True))
     res = {}
     for kind in ("etree", "dom"):
         try:
             if frag:
-                flat, p, tree = h5.parse_frag(data, container=case["container"], kind=kind)
+                flat, p, tree = h5.parse_frag(data, container=case["container"], kind=kind, ns=nsflag)
                 starts = [("fragment", tree, flat, "frag")]
             else:
-                flat, p, tree = h5.parse_doc(data, kind="etree-full" if kind == "etree" else "dom")
+                flat, p, tree = h5.parse_doc(data, kind="etree-full" if kind == "etree" else "dom", ns=nsflag)
                 starts = [("document", tree, flat, "doc")]
                 sub = html_subtree(flat)
+                if not nsflag:
+                    ctx.count("trees_with_unnamespaced_html_elements")
                 if kind == "etree":
-                    root = tree.find("{%s}html" % canon.HTML)
+                    root = tree.find("{%s}html" % canon.HTML) if nsflag else tree.find("html")
                 else:
                     root = tree.documentElement
                 if root is not None and sub is not None:
@@ -180,6 +183,8 @@ def shard(ctx):
         data = streams.gen_input(rng, 25 if ctx.tier == "quick" else 80)
         frag = rng.random() < 0.3
         case = {"input": data, "frag": frag, "container": rng.choice(gen.CONTEXTS) if frag else None}
+        if rng.random() < 0.12:
+            case["ns"] = False
         run_case(ctx, case)
         if n <= 3 and ctx.i == 0:
             ctx.sample(case)
